@@ -1,4 +1,5 @@
 import itertools
+import collections
 
 from ..helpers.resource_matcher import ResourceMatcher
 
@@ -110,7 +111,10 @@ def concatenate(fields, target={}, resources=None):
                     itertools.chain([resource],
                                     itertools.islice(it,
                                                      num_concatenated-1))
-                yield concatenator(resource_chain, needed_fields, field_mapping)
+                concatenated = concatenator(resource_chain, needed_fields, field_mapping)
+                yield concatenated
+                # all concatenated resources are used up, also when a later step stopped reading early
+                collections.deque(concatenated, maxlen=0)
             else:
                 yield resource
 
